@@ -564,3 +564,10 @@ V("c05-precision-cache", "C05", "fire", ND, "        self.covariance = covarianc
   more=[(ND, "        mean = mean_y + cov_yx @ np.linalg.inv(cov_x) @ (x - mean_x)\n        covariance = cov_y - cov_yx @ np.linalg.inv(cov_x) @ cov_xy\n",
          "        key = frozenset(X)\n        if key not in self._precisions:\n            self._precisions[key] = np.linalg.inv(cov_x)\n        prec = self._precisions[key]\n        mean = mean_y + cov_yx @ prec @ (x - mean_x)\n        covariance = cov_y - cov_yx @ prec @ cov_xy\n")],
   rule="HISTORY", what="inverse cached under the unordered set of X: a second call with X in another order mixes two orderings")
+
+# ------------------------------------------------------------------------------- helper extraction in topological_ordering (silent) / memoised worker (fire, C14)
+KAHN_BODY_OLD = "    # Work on the zero pattern only: weights may be negative or cancel\n    A = (A != 0).astype(int)\n"
+V("c03-silent-kahn-helper", "C03", "silent", UT, KAHN_BODY_OLD, "    return _kahn((A != 0).astype(int))\n\n\ndef _kahn(A):\n", what="Kahn body moved into a private helper working on the 0/1 pattern")
+V("c14-memoised-kahn-worker", "C14", "fire", UT, "from functools import reduce\n", "from functools import reduce, lru_cache\n",
+  more=[(UT, KAHN_BODY_OLD, "    pattern = np.asarray(A) != 0\n    return _kahn(pattern.tobytes(), len(pattern))\n\n\n@lru_cache(maxsize=512)\ndef _kahn(pattern, p):\n    A = np.frombuffer(pattern, dtype=bool).reshape(p, p).astype(int)\n")],
+  rule="M4", what="memoised worker returns one shared ordering list per zero pattern")
